@@ -15,13 +15,29 @@ EXTS = ["xtc", "trr", "pdb", "pdb.gz", "dcd", "h5", "nc", "netcdf", "ncdf", "ncr
         "gro", "rst7", "dtr"]
 OPENABLE = ["xtc", "trr", "pdb", "dcd", "h5", "nc", "mdcrd", "lammpstrj", "xyz", "xyz.gz", "gro", "rst7", "ncrst", "dtr", "pdb.gz"]
 PRE = ["same", "longer", "junk", "empty", "other-kind", "partial-numbered"]
+# the format-specific writers, reached without the extension dispatch of Trajectory.save / md.open
+METHOD = {"xtc": "save_xtc", "trr": "save_trr", "pdb": "save_pdb", "pdb.gz": "save_pdb", "dcd": "save_dcd", "h5": "save_hdf5",
+          "nc": "save_netcdf", "netcdf": "save_netcdf", "ncdf": "save_netcdf", "ncrst": "save_netcdfrst", "crd": "save_mdcrd",
+          "mdcrd": "save_mdcrd", "lammpstrj": "save_lammpstrj", "xyz": "save_xyz", "xyz.gz": "save_xyz", "gro": "save_gro",
+          "rst7": "save_amberrst7", "dtr": "save_dtr"}
+CLASS = {"xtc": "XTCTrajectoryFile", "trr": "TRRTrajectoryFile", "pdb": "PDBTrajectoryFile", "dcd": "DCDTrajectoryFile",
+         "h5": "HDF5TrajectoryFile", "nc": "NetCDFTrajectoryFile", "mdcrd": "MDCRDTrajectoryFile",
+         "lammpstrj": "LAMMPSTrajectoryFile", "xyz": "XYZTrajectoryFile", "gro": "GroTrajectoryFile", "rst7": "AmberRestartFile",
+         "ncrst": "AmberNetCDFRestartFile", "dtr": "DTRTrajectoryFile"}
+NAMES = ["std", "upper", "alt", "noext"]     # file-name shapes for the writers that do not dispatch on the extension
+ALT = {"h5": "hdf5", "nc": "cdf", "pdb": "ent", "xtc": "part0001", "dcd": "coor", "rst7": "inpcrd", "ncrst": "rst",
+       "mdcrd": "traj", "crd": "traj", "gro": "g96x", "dtr": "stk0"}
 RULE = ("case = (extension, pre-existing content at the path {valid file of the format, longer valid file, unrelated bytes, empty "
         "file, directory-vs-file mismatch, a subset of the numbered file.N restart outputs}, 1 or 3 frames, force_overwrite, entry "
-        "point {Trajectory.save, md.open(mode='w'), read entry points}, path shape {absolute str, relative str, pathlib.Path}); "
+        "point {Trajectory.save, md.open(mode='w'), the format's own Trajectory.save_<fmt> method, the format's file class "
+        "opened with mode='w', read entry points}, file-name shape for the last two {usual extension, upper-cased, another "
+        "suffix such as .hdf5/.inpcrd/.dat, no suffix}, path shape {absolute str, relative str, pathlib.Path}); "
         "oracle = SHA-256 / size / directory-tree digests before and after; overwrite result must load equal to a file written "
         "to a fresh path and have the same size; non-trivial = pre-existing valid longer file or partial numbered set or "
         "force_overwrite=False on a non-empty existing target")
-ENUM_SCOPE = "the full product extension x pre-existing content x {1,3} frames x force_overwrite x {save, open-for-write} plus the read-only sweep, both tiers"
+ENUM_SCOPE = ("the full product extension x pre-existing content x {1,3} frames x force_overwrite x {save, open-for-write} plus "
+              "extension x {same, junk, longer} x force_overwrite x {save_<fmt> method, file class} x four file-name shapes, plus the "
+              "read-only sweep, both tiers")
 QUICK = {"examples": 40, "shards": 12, "budget_s": 100}
 THOROUGH = {"examples": 1200, "shards": 16, "budget_s": 1200}
 ASSUMPTIONS = ["only the files that existed before the call are required to be unchanged when a save is refused; new sibling files "
@@ -52,6 +68,15 @@ def enumerate_cases(tier):
                     if ext in OPENABLE and pre != "partial-numbered":
                         yield {"ext": ext, "pre": pre, "nf": nf, "force": force, "via": "open", "path": "abs", "seed": 0}
         yield {"ext": ext, "pre": "same", "nf": 3, "force": False, "via": "read", "path": "abs", "seed": 0}
+        for via in ("method", "class"):
+            if via == "class" and ext not in CLASS:
+                continue
+            for nm in NAMES:
+                if ext.endswith(".gz") and nm != "std":
+                    continue
+                for pre in ("same", "junk", "longer"):
+                    for force in (False, True):
+                        yield {"ext": ext, "pre": pre, "nf": 3, "force": force, "via": via, "name": nm, "path": "abs", "seed": 0}
 
 
 @st.composite
@@ -61,12 +86,17 @@ def strategy(draw, tier="quick"):
     nf = draw(st.integers(1, 12))
     if pre == "partial-numbered" and nf == 1:
         nf = 2
-    via = draw(st.sampled_from(["save", "save", "open", "read"]))
+    via = draw(st.sampled_from(["save", "save", "open", "read", "method", "class"]))
     if via == "open" and (ext not in OPENABLE or pre == "partial-numbered"):
         via = "save"
+    if via == "class" and (ext not in CLASS or pre == "partial-numbered"):
+        via = "method"
     if via == "read":
         pre = "same"
-    return {"ext": ext, "pre": pre, "nf": nf, "force": draw(st.booleans()), "via": via,
+    nm = "std"
+    if via in ("method", "class") and not ext.endswith(".gz"):
+        nm = draw(st.sampled_from(NAMES))
+    return {"ext": ext, "name": nm, "pre": pre, "nf": nf, "force": draw(st.booleans()), "via": via,
             "path": draw(st.sampled_from(["abs", "rel", "pathlib"])), "seed": draw(st.integers(0, 5)),
             "na": draw(st.sampled_from([3, 9, 10, 12])), "old_nf": draw(st.integers(1, 15))}
 
@@ -99,7 +129,7 @@ def _snapshot(d):
 
 def _load_any(path, ext, top):
     import mdtraj as md
-    if _restart(ext) and not path.endswith(ext):
+    if _restart(ext) and not path.endswith("." + ext):
         from mdtraj.formats import AmberNetCDFRestartFile, AmberRestartFile
         cls = AmberRestartFile if ext == "rst7" else AmberNetCDFRestartFile
         with cls(path) as fh:
@@ -109,10 +139,41 @@ def _load_any(path, ext, top):
     return md.load(path, top=top)
 
 
-def _write_via_open(path, ext, tr, force):
+def _file_name(ext, nm):
+    if nm == "upper":
+        return "target." + ext.upper()
+    if nm == "alt":
+        return "target." + ALT.get(ext, "dat")
+    if nm == "noext":
+        return "target_" + ext.replace(".", "_")
+    return "target." + ext
+
+
+def _write_via_method(path, ext, tr, force):
+    getattr(tr, METHOD[ext])(path, force_overwrite=force)
+
+
+def _load_named(path, ext, top):
+    """load a file whose name need not carry the format's extension: a copy under the usual name is what gets loaded"""
+    if _restart(ext) or str(path).endswith("." + ext):
+        return _load_any(path, ext, top)
+    with files.scratch() as d2:
+        cp = os.path.join(d2, "copy." + ext)
+        if os.path.isdir(path):
+            shutil.copytree(path, cp)
+        else:
+            shutil.copyfile(path, cp)
+        return _load_any(cp, ext, top)
+
+
+def _write_via_open(path, ext, tr, force, cls=None):
     import mdtraj as md
     from props import c19
-    fh = md.open(path, "w", force_overwrite=force)
+    if cls is not None:
+        import mdtraj.formats as F
+        fh = getattr(F, CLASS[ext])(path, mode="w", force_overwrite=force)
+    else:
+        fh = md.open(path, "w", force_overwrite=force)
     try:
         if ext in ("rst7", "ncrst"):
             fh.write(tr.xyz[0] * 10, time=float(tr.time[0]), cell_lengths=None if tr.unitcell_lengths is None else tr.unitcell_lengths[0] * 10,
@@ -129,9 +190,9 @@ def run_case(case):
     ext, pre, nf, force, via = case["ext"], case["pre"], case["nf"], case["force"], case["via"]
     na = case.get("na", 10)
     viol, labels = [], ["ext:" + ext, "pre:" + pre, "via:" + via, "force" if force else "noforce"]
-    if via == "open" and _restart(ext):
+    if via in ("open", "class") and _restart(ext):
         nf = 1   # a restart file object holds one frame and writes to the path itself
-    if via == "open" and case["path"] == "pathlib":
+    if via in ("open", "class") and case["path"] == "pathlib":
         case = dict(case, path="abs")  # path-like support of the file classes is not this property's subject
     new = _traj(nf, na, case["seed"] + 100, ext)
     old_nf = {"same": nf, "longer": nf + case.get("old_nf", 6)}.get(pre, nf)
@@ -141,14 +202,22 @@ def run_case(case):
         warnings.simplefilter("ignore")
         try:
             os.chdir(d)
-            name = "target." + ext
+            name = _file_name(ext, case.get("name", "std"))
+            if name != "target." + ext:
+                labels.append("name:" + case["name"])
             full = os.path.join(d, name)
+
+            def put(tr, where, frc=True):
+                if via == "method" or (via == "class" and name != "target." + ext):
+                    _write_via_method(where, ext, tr, frc)
+                else:
+                    tr.save(where, force_overwrite=frc)
             # ---- pre-existing content
             if pre in ("same", "longer"):
-                old.save(full)
+                put(old, full)
                 if _restart(ext) and old_nf > 1 and nf == 1:
                     # a single-frame save targets `full` itself: make that exist too
-                    old[0].save(full)
+                    put(old[0], full)
             elif pre == "junk":
                 for t in _targets(full, ext, nf):
                     if ext == "dtr":
@@ -172,7 +241,7 @@ def run_case(case):
                         open(os.path.join(t, "keep.txt"), "w").write("keep me")
             elif pre == "partial-numbered":
                 targets = _targets(full, ext, nf)
-                _traj(nf, na, case["seed"], ext).save(full)
+                put(_traj(nf, na, case["seed"], ext), full)
                 for t in targets[:1] + targets[2:]:
                     os.remove(t)   # only file.2 of file.1..file.N exists
             before = _snapshot(d)
@@ -219,8 +288,10 @@ def run_case(case):
             try:
                 if via == "save":
                     new.save(path, force_overwrite=force)
+                elif via == "method":
+                    _write_via_method(path, ext, new, force)
                 else:
-                    _write_via_open(path, ext, new, force)
+                    _write_via_open(path, ext, new, force, cls=(via == "class") or None)
             except Exception as e:  # noqa - classified below
                 raised = e
             after = _snapshot(d)
@@ -255,16 +326,18 @@ def run_case(case):
                     rfull = os.path.join(refd, name)
                     if via == "save":
                         new.save(rfull, force_overwrite=True)
+                    elif via == "method":
+                        _write_via_method(rfull, ext, new, True)
                     else:
-                        _write_via_open(rfull, ext, new, True)
+                        _write_via_open(rfull, ext, new, True, cls=(via == "class") or None)
                     wnf = nf
                     for t, rt in zip(_targets(full, ext, wnf), _targets(rfull, ext, wnf)):
                         if not os.path.lexists(t):
                             viol.append(("%s/%s/overwrite-missing" % (ext, via), "%s not written" % os.path.basename(t)))
                             break
                         try:
-                            got = _load_any(t, ext, new.topology)
-                            exp = _load_any(rt, ext, new.topology)
+                            got = _load_named(t, ext, new.topology)
+                            exp = _load_named(rt, ext, new.topology)
                         except Exception as e:
                             viol.append(("%s/%s/overwrite-unloadable" % (ext, via), "pre=%s: %s %s" % (pre, type(e).__name__, str(e)[:200])))
                             break
